@@ -1,1 +1,2 @@
 import QibModel.BackendOps
+import QibModel.GateOps
